@@ -29,7 +29,11 @@ class TaggedStats:
         return self.var_vals[len([c for c in self.calls if c[0] == "variance"]) - 1]
 
     def __getattr__(self, n):
-        raise hx.StubLimit("statistics.%s not modelled" % n)
+        # any other function of the module: recorded under its own name, opaque result
+        def other(data, *a, **k):
+            self.calls.append((n, data))
+            return ("statistics." + n, data)
+        return other
 
 
 def aggregate_linear(a: int, b: int, c: int, n: int, mi: int) -> bool:
